@@ -21,7 +21,7 @@ from vf.core.harness import Collector, drive, exc_bucket, jhash, shard_seed
 PROP = "C03"
 MOD = "vf.checks.c03"
 RULE = (
-    "Hypothesis cases: model kind (logistic/linear/shared-speed/joint; scalar/diagonal noise; 0-2 sources) x generated cohort x latent "
+    "Hypothesis cases: model kind (logistic/linear/shared-speed/joint/mixture; scalar/diagonal noise; 0-2 sources) x generated cohort x latent "
     "variable x sampler kind (Gibbs, FastGibbs, Metropolis-Hastings for population variables; individual Gibbs) x inverse temperature in "
     "{1, (0,0.2), (0.2,1)} x proposal scale factor {0.01..30} x seed x cold/warm cache x random or fixed block order x 1-3 consecutive "
     "sampler.sample calls on the same sampler, each block of each call judged separately. Non-trivial = beta < 1 and the step contains both an accepted and a rejected decision, or some decision with |log u + D| < 1; "
@@ -30,10 +30,11 @@ RULE = (
 ASSUMPTIONS = [
     "torch.randn / torch.rand / shuffle / State.put / the decision function are wrapped pass-through (recorded, not replaced), except in the `boundary` sub-check where the uniform draw is forced to equal alpha.",
     "The likelihood terms used for D are the model's own variables evaluated from their definitions on a fresh copy of the state (their agreement with the documented densities is C08's job).",
-    "mixture_logistic individual steps (responsibility-weighted regularity) are outside the documented target of the statement and excluded.",
+    "mixture_logistic individual steps: the regularity of a state is the membership-probability-weighted sum of the per-cluster regularities, with the probabilities evaluated at that same state (they depend on the sampled block).",
+    "Extreme current states (one individual with xi = 100, i.e. non-finite energy terms) are generated: a NaN ratio must give a rejection (u < NaN is false).",
 ]
 REQUIRED_CLASSES = {"step:individual": 200, "step:Gibbs": 60, "step:FastGibbs": 60, "step:Metropolis-Hastings": 60, "beta<1": 300,
-                    "has-accept-and-reject": 100, "near-boundary": 100, "alpha>=1": 50, "nontrivial": 200, "consecutive-call": 150, "fixed-block-order": 100}
+                    "has-accept-and-reject": 100, "near-boundary": 100, "alpha>=1": 50, "nontrivial": 200, "consecutive-call": 150, "fixed-block-order": 100, "extreme-state": 200, "kind:mixture_logistic": 80}
 
 
 class Fail(Exception):
@@ -42,8 +43,23 @@ class Fail(Exception):
 
 
 def _terms(c, values, name, individual):
+    import torch
+
+    from leaspy.utils.weighted_tensor import WeightedTensor
+
     if individual:
-        return scratch_eval(c["dag"], values, "nll_attach_ind"), scratch_eval(c["dag"], values, f"nll_regul_{name}_ind")
+        att = scratch_eval(c["dag"], values, "nll_attach_ind")
+        reg = scratch_eval(c["dag"], values, f"nll_regul_{name}_ind")
+        reg = reg.weighted_value if isinstance(reg, WeightedTensor) else reg
+        if reg.ndim == 2:
+            # mixture prior: one regularity per cluster, weighted by the membership probabilities *of the state it is
+            # evaluated at* (they depend on the block: "everything that depends on that block")
+            tot = scratch_eval(c["dag"], values, "nll_regul_ind_sum_ind")
+            tot = tot.value if isinstance(tot, WeightedTensor) else tot
+            probs = torch.softmax(torch.clamp(-tot, min=-100.0), dim=1)
+            reg = (probs * reg).sum(dim=1)
+        att = att.weighted_value if isinstance(att, WeightedTensor) else att
+        return att, reg
     return scratch_eval(c["dag"], values, "nll_attach"), scratch_eval(c["dag"], values, f"nll_regul_{name}")
 
 
@@ -65,6 +81,12 @@ def run_step(c, case, *, forced_u=None, perturb_others_of=None):
 
     s = fresh_state(c["state0"])
     name = c02._pick(c["ind_latent"] if case["which"] == "ind" else c["pop_latent"], case["var"])
+    if case.get("extreme") is not None and "xi" in c["ind_latent"]:
+        # a current state in which one individual has a non-finite energy term (its decisions must still follow u < exp(-D))
+        with s.auto_fork(None):
+            v = fast_copy(s._values["xi"])
+            v[case["extreme"] % c["n"]] = 100.0
+            s["xi"] = v
     if perturb_others_of is not None:
         i = perturb_others_of
         with s.auto_fork(None):
@@ -150,6 +172,8 @@ def body(col: Collector, case):
     individual = case["which"] == "ind"
     beta = float(case["beta"])
     classes = ["kind:" + case["cfg"]["kind"], "beta=1" if beta == 1.0 else "beta<1"]
+    if case.get("extreme") is not None:
+        classes.append("extreme-state")
     if beta < 0.2:
         classes.append("beta<0.2")
     near = False
@@ -316,6 +340,7 @@ def step_case(draw, kinds):
         seed=draw(st.integers(0, 100_000)), cold=draw(st.booleans()),
         locality=draw(st.none() | st.integers(0, 7)), boundary=draw(st.booleans()),
         random_order=draw(st.sampled_from([True, True, False])), n_calls=draw(st.sampled_from([1, 1, 2, 3])),
+        extreme=draw(st.sampled_from([None, None, None, 0, 1, 3])),
     )
     return c
 
@@ -329,7 +354,7 @@ def shard_run(kinds, seed: int, n_examples: int, shard: int = 0):
 
 def shards(tier: str, seed: int):
     n = dict(quick=140, thorough=2500)[tier]
-    kind_sets = [("logistic",), ("joint",), ("linear",), ("shared_speed_logistic",), ("logistic", "joint"), ("logistic", "linear"), ("joint",), ("logistic",)]
+    kind_sets = [("logistic",), ("joint",), ("linear",), ("shared_speed_logistic",), ("logistic", "joint"), ("logistic", "linear"), ("mixture_logistic",), ("logistic",)]
     return [(MOD, "shard_run", dict(kinds=kind_sets[k % len(kind_sets)], seed=seed, n_examples=n, shard=k)) for k in range(16)]
 
 
